@@ -278,3 +278,26 @@ CHECKS["C17"] = {
         {"name": "cookie-random", "run": "^TestC17CookieRandom$", "kind": "rapid", "checks": {"quick": 20000, "thorough": 800000}, "shards": {"quick": 4, "thorough": 16}},
     ],
 }
+
+CHECKS["C05"] = {
+    "pkg": "props/c05",
+    "level": "exploration",
+    "rule": "(entry point, name input a, value input b): 58 closures, one per public header-writing API on RequestHeader, Request, ResponseHeader (incl. SetCookie with hostile key/value/domain/path and re-parsed cookies), Trailer (header announcement and trailer section) and the RequestContext helpers (Header, SetCookie, SetPartitionedCookie, Redirect, SetContentType); "
+            "exhaustive: every string of <=1 (thorough <=2) symbols over {CR, LF, NUL, ':', SP, 'a', ';', '='} as name (alone and after a benign token) x every string of <=3 (thorough <=4) symbols as value, plus classic CRLF payloads; random: 0..24 bytes over the hostile alphabet. "
+            "Each message (written by the real request/response serialisers) is compared with its benign twin (hostile bytes replaced by 'x'). Non-trivial = the input contains CR or LF (or ':', NUL, SP in a name).",
+    "assumptions": [
+        "method and request-URI stay benign (the statement does not list them)",
+        "a field whose name is hostile may be dropped (one line fewer than the twin); an empty field name is garbage-in and skipped (class twin-unparseable)",
+        "NUL and other control bytes inside values may pass through: the statement is about line breaks",
+        "a panic produces no message and is C03's business (class panicked)",
+    ],
+    "level_text": "Bounded-exhaustive + random exploration with a strict line reader and a benign-twin differential: exactly one start line, no bare CR/LF in any line, every line 'token: value', the same number of header lines as the twin (or one fewer when the name was hostile), and the header block ending at the same place (identical body).",
+    "level_note": "Trusts the table of entry points (cross-checked by reflection against the exported Set*/Add*/Update* methods of the header types; an uncovered setter makes the run inconclusive).",
+    "technique": "bounded-exhaustive enumeration + rapid over an entry-point table, differential against a benign twin under a strict header-line reader",
+    "nontrivial_floor": 1000,
+    "units": [
+        {"name": "selftest", "run": "^TestC05SelfTest$", "kind": "plain"},
+        {"name": "exhaustive", "run": "^TestC05Exhaustive$", "kind": "plain", "shards": 8},
+        {"name": "random", "run": "^TestC05Random$", "kind": "rapid", "checks": {"quick": 40000, "thorough": 800000}, "shards": {"quick": 4, "thorough": 16}},
+    ],
+}
